@@ -13,7 +13,7 @@ import itertools
 # name -> (in space label, out space label)
 TYPES: dict[str, dict[str, tuple[str, str]]] = {
     'POL': {
-        'R1': ('S', 'S'), 'R2': ('S', 'S'), 'R1t': ('S', 'S'), 'R2t': ('S', 'S'), 'R1x': ('S', 'S'),
+        'R1': ('S', 'S'), 'R2': ('S', 'S'), 'R1t': ('S', 'S'), 'R2t': ('S', 'S'), 'R1x': ('S', 'S'), 'Rnp': ('S', 'S'),
         'H': ('S', 'S'), 'Pol': ('S', 'D'), 'Is': ('S', 'S'), 'k2': ('S', 'S'), 'km': ('S', 'S'),
         'Id': ('D', 'D'), 'k4': ('D', 'D'),
     },
@@ -23,7 +23,7 @@ TYPES: dict[str, dict[str, tuple[str, str]]] = {
         'Pk': ('a3', 'a2'), 'Pkt': ('a2', 'a3'), 'Pn': ('v4', 'v4'),
         'Pp': ('a3', 'a3'), 'Pr': ('a3', 'a3'), 'Pa': ('a3', 'v4'), 'Pat': ('v4', 'a3'),
         'Rv': ('m22', 'v4'), 'Rvt': ('v4', 'm22'), 'Rs': ('v4', 'm22'), 'Rst': ('m22', 'v4'),
-        'Rn': ('m22', 'm22'), 'M01': ('m22', 'm22'), 'M10': ('m22', 'm22'), 'Mx': ('m22', 'm22'),
+        'R41': ('m41', 'v4'), 'R41t': ('v4', 'm41'), 'Rn': ('m22', 'm22'), 'M01': ('m22', 'm22'), 'M10': ('m22', 'm22'), 'Mx': ('m22', 'm22'),
         'D4': ('v4', 'v4'), 'D3': ('a3', 'a3'), 'k3': ('a3', 'a3'), 'k4': ('v4', 'v4'), 'I4': ('v4', 'v4'),
     },
     'INV': {
@@ -106,12 +106,15 @@ def build(domain: str) -> dict:
         R2 = QURotationOperator(arr(2.0), S)
         atoms = {
             'R1': R1, 'R2': R2, 'R1t': R1.T, 'R2t': R2.T, 'R1x': QURotationOperator(arr([0.3, -1.1]), S),
+            'Rnp': QURotationOperator(__import__('numpy').array([0.9, -0.4], dtype='float32'), S),  # NumPy angles: mutable storage
+
             'H': HWPOperator(S), 'Pol': LinearPolarizerOperator(S), 'Is': IdentityOperator(S),
             'k2': hom(2.0, S), 'km': hom(-0.5, S), 'Id': IdentityOperator(D), 'k4': hom(4.0, D),
         }
     elif domain == 'IDX':
-        a3, a2, v4, m22 = sds(3), sds(2), sds(4), sds(2, 2)
-        spaces = {'a3': a3, 'a2': a2, 'v4': v4, 'm22': m22}
+        a3, a2, v4, m22, m41 = sds(3), sds(2), sds(4), sds(2, 2), sds(4, 1)
+        spaces = {'a3': a3, 'a2': a2, 'v4': v4, 'm22': m22, 'm41': m41}
+        R41 = RavelOperator(in_structure=m41)
         P = IndexOperator(jnp.array([0, 2, 2, -1]), in_structure=a3, out_structure=v4)
         Pu = IndexOperator(jnp.array([2, 0]), in_structure=a3, out_structure=a2, unique_indices=True)
         Ps = IndexOperator(slice(0, 2), in_structure=a3, out_structure=a2)
@@ -127,7 +130,7 @@ def build(domain: str) -> dict:
             'P': P, 'Pt': P.T, 'Pu': Pu, 'Put': Pu.T, 'Ps': Ps, 'Pst': Ps.T, 'Pm': Pm, 'Pmt': Pm.T,
             'Pp': Pp, 'Pr': Pr, 'Pa': Pa, 'Pat': Pa.T,
             'Pk': Pk, 'Pkt': Pk.T, 'Pn': IndexOperator((slice(None),), in_structure=v4, out_structure=v4),
-            'Rv': Rv, 'Rvt': Rv.T, 'Rs': Rs, 'Rst': Rs.T, 'Rn': ReshapeOperator((2, -1), in_structure=m22),
+            'Rv': Rv, 'Rvt': Rv.T, 'Rs': Rs, 'Rst': Rs.T, 'R41': R41, 'R41t': R41.T, 'Rn': ReshapeOperator((2, -1), in_structure=m22),
             'M01': MoveAxisOperator(0, 1, in_structure=m22), 'M10': MoveAxisOperator(1, 0, in_structure=m22),
             'Mx': MoveAxisOperator((0, 1), (1, 0), in_structure=m22),
             'D4': DiagonalOperator(arr([2.0, 3.0, 5.0, 7.0]), in_structure=v4),
